@@ -18,6 +18,7 @@ type vxNetConn struct {
 	cur      []byte
 	wire     []byte   // everything written by the library
 	writes   [][]byte // one entry per Write call
+	wseq     []int    // vxClock value of each Write call
 	closed   bool
 	failRead bool // next Read returns an error
 	failWriteAfter int // Write fails once this many bytes were written (<0: never)
@@ -56,6 +57,10 @@ func (c *vxNetConn) Write(p []byte) (int, error) {
 	copy(b, p)
 	c.wire = append(c.wire, b...)
 	c.writes = append(c.writes, b)
+	vxLock()
+	vxClock++
+	c.wseq = append(c.wseq, vxClock)
+	vxUnlock()
 	vxEvent("write")
 	if c.onWrite != nil {
 		c.onWrite <- len(p)
